@@ -12,12 +12,16 @@ Init == q1 = 0 /\ q2 = 0
 Next == q1 = 0 /\ q1' \in 1..NQ /\ q2' \in (IF AllPairs THEN 0..NQ ELSE {0, 1 + (q1' % NQ), 1 + ((q1' + 11) % NQ)})
 Spec == Init /\ [][Next]_<<q1, q2>>
 \* one question: yes -> pdf 2, no -> pdf 1;  two questions: q1 no -> (q2 ? pdf 2 : pdf 1), q1 yes -> pdf 3
+\* one word of every duration PDF of these voices is the float32 NEGATIVE zero (<<0, 99>> by convention: bit pattern 0x80000000);
+\* a reader must hand the entry on with its sign bit (bit-equality is the property)
+NegZero == <<0, 99>>
+DurWordsNZ(p) == LET w == DurWords(F, p) IN [i \in 1..Len(w) |-> IF i = Len(w) THEN NegZero ELSE w[i]]
 DurQ == IF q2 = 0
         THEN [qs |-> << QuestionTable[q1] >>, trees |-> << [state |-> 2, leaf |-> 0, nodes |-> << Row(0, q1, P(1), P(2)) >>] >>,
-              pdfs |-> << [p \in 1..2 |-> DurWords(F, p)] >>]
+              pdfs |-> << [p \in 1..2 |-> DurWordsNZ(p)] >>]
         ELSE [qs |-> << QuestionTable[q1], QuestionTable[q2] >>,
               trees |-> << [state |-> 2, leaf |-> 0, nodes |-> << Row(0, q1, N(-1), P(3)), Row(-1, q2, P(1), P(2)) >>] >>,
-              pdfs |-> << [p \in 1..3 |-> DurWords(F, p)] >>]
+              pdfs |-> << [p \in 1..3 |-> DurWordsNZ(p)] >>]
 DocQ == [Doc(F) EXCEPT !.dur = DurQ]
 ModelSays(m, states) == [trees |-> Len(m.trees),
     sel |-> [st \in 1..Len(states) |-> [l \in 1..NL |-> Select(m, states[st], l)]],
